@@ -175,6 +175,25 @@ def run(ck):
             elif got == T.rename_syms(want, {"t": "m", "m": "t"}):
                 d = ("dep-extra", ["arguments exchanged: computes KL(model || target)"])
             ck.check(diff_verdict(d), "C10.R3", "_single_basis_KL = sum t log t - sum t log m", skl.site(), "single-basis KL: " + diff_msg(d), got=got)
+    # ------------------------------------------------------------------ R4 the rotations KL / NLL rely on
+    # KL and NLL in a rotated basis are only the named quantities if the rotation is the tensor-product unitary with
+    # site 0 leftmost and if U rho U^dagger binds rows/columns correctly: these C04 rules are necessary conditions here.
+    from ..core import Checker
+    from . import c04
+
+    nb = Checker.__new__(Checker)
+    nb.__dict__.update(ck.__dict__)
+    nb.results = []
+    nb.min_counts = {}
+    nb.extra = {}
+    try:
+        c04.run(nb)
+        for r in nb.results:
+            if (r.rule.startswith("C04.R2") or r.rule.startswith("C04.R4")) and r.instance != "instance-count":
+                r.rule = "C10.R4<-" + r.rule
+                ck.results.append(r)
+    except Exception as e:
+        ck.undecided("C10.R4", "rotation rules", "", "could not evaluate the rotation rules: %s" % e)
     ck.require_min("C10.R1", 20)
     ck.require_min("C10.R2", 10)
     ck.require_min("C10.R3", 12)
